@@ -92,6 +92,25 @@ CHECKS = {
             "or row index is the transposed permutation) and cut by the same slice; eigmax/eigmin call eig with k=1 and LM/SM; power iteration refuses other requests; Auto chooses "
             "Lanczos only under SelfAdjoint.",
             "That returned pairs satisfy A v = lambda v, convergence and linear independence are numerical and not decided.", "4/C10"),
+    "C12": ("bounded-loop certificate (cap conjunct + counter monotonicity), def-use of the stopping tolerance and the scaling array, axis discipline of reductions, typestate of the iteration counter",
+            "Decides the stopping contract and the structural part of the per-column claim: the loop condition is a conjunction containing k < max_iters with k from 0 by +1 per body; it "
+            "continues while ANY column's residual norm exceeds tol' = tol*||r0|| + tol, computed once; the right-hand side is divided by its column norms and solution and residual are "
+            "multiplied back by the same array (linearity in b, exact zero for b = 0); every reduction on the CG state in the routine and its helpers is over the row axis (no mixing of "
+            "right-hand-side columns); the reported iteration count must advance once per body execution.",
+            "Krylov optimality of the iterate, the recurrences themselves and preconditioner independence are numerical and NOT decided (a formula match of the CG recurrences was "
+            "rejected: an equivalent reformulation would be a false alarm).", "4/C12"),
+    "C14": ("bounded-loop certificate, constructor-argument identity, sign provenance of written entries, sesquilinear-form convention of the Gram-Schmidt step, def-use pairing",
+            "Structural necessary conditions: at most min(max_iters, n) steps (clip + cond conjunct i <= max_iters with i from 1 by +1); T is Tridiagonal(a, b, a) with the same array in "
+            "both off-diagonal slots and off-diagonal entries written as norms; the start vector is divided by its norm (not in place) and stored in column 1; the re-orthogonalisation "
+            "coefficient conjugates the basis it is later multiplied with; lanczos_eigs sorts ascending and permutes values and vector columns by the same index; diagonal, off-diagonal "
+            "and Q are trimmed to iters, iters-1, iters.",
+            "Orthonormality, the three-term recurrence, early termination and A Q - Q T are numerical and not decided.", "4/C14"),
+    "C15": ("bounded-loop certificate, allocation check of the work buffers, sign provenance, dependence of the normalisation floor on the tolerance, projection convention",
+            "Thin structural claim: at most min(max_iters, n) steps; H and Q are zero-initialised (never empty) and sized by the requested cap, which is why extra rows/columns stay zero; "
+            "sub-diagonal entries are norms; the new vector is divided by clip(norm, floor) with a floor that depends on tol (a tol-independent floor turns post-breakdown rounding noise "
+            "into a unit column with a zero H column); modified Gram-Schmidt conjugates the basis; the first column is the normalised start vector; arnoldi_eigs drops the last row of H "
+            "and last column of Q together.",
+            "The Arnoldi relation, orthonormality and breakdown behaviour as numbers are not decided.", "4/C15"),
 }
 
 NOT_APPLICABLE = {
